@@ -252,7 +252,7 @@ func (cs *Contracts) loadFile(path, pkg string) error {
 			curF, curS, curLoop = nil, nil, nil
 		case "spec":
 			// spec name(params) type [= expr]
-			m := regexp.MustCompile(`^([A-Za-z_][A-Za-z0-9_]*)\s*\(([^)]*)\)\s*([A-Za-z_][A-Za-z0-9_.\[\]]*)\s*(?:=\s*(.*))?$`).FindStringSubmatch(strings.TrimSpace(rc.text))
+			m := regexp.MustCompile(`^([A-Za-z_][A-Za-z0-9_]*)\s*\(([^)]*)\)\s*((?:\[\]|\*)*[A-Za-z_][A-Za-z0-9_.]*)\s*(?:=\s*(.*))?$`).FindStringSubmatch(strings.TrimSpace(rc.text))
 			if m == nil {
 				return fail("spec: expected name(params) type [= expr]")
 			}
